@@ -117,6 +117,7 @@ theorem linv_handleComplete {Rm : Nat → Rel} {n : Nat} {base : Base} (cx : Ctx
   have hlog2 : s2.log = Event.complete q (Rm q).id (Rm q).content
       (((Rm q).members.filter fun m => m.ref ≠ 0).map fun m => (m, s.lookup m.kind m.ref)) :: s.log := fp.2
   have hi2 : HInv c.fixed SO s2 := hinv_congr i.hinv hst2 hdb2
+  have hx2 : XInv s2 := xinv_congr i.xinv hst2 hdb2
   have hsk2 : ∀ k, skel (s2.getDb k) = base k := fun k => by rw [hdb2]; exact i.skelEq k
   have hdead2 : ∀ p, deadB s2 p = deadB s p := by intro p; simp [deadB, hrdb2]
   have r2 : RemInv q (Rm q).members s2 := by
@@ -130,7 +131,7 @@ theorem linv_handleComplete {Rm : Nat → Rel} {n : Nat} {base : Base} (cx : Ctx
       rw [hdb2, count_mine_live i.num q hqlive, i.skelEq, cx.members q hq k id hid]
       rfl
   have hlive2 : ∃ mq, s2.rdb[q]? = some ⟨q + 1, mq⟩ := ⟨0, by rw [hrdb2]; exact hlive⟩
-  obtain ⟨hi3, r3⟩ := rem_removeMembers cx c q hq harr (Rm q).members w2 hsk2 hlive2 hi2 r2
+  obtain ⟨hi3, r3, hx3⟩ := rem_removeMembers cx c q hq harr (Rm q).members w2 hsk2 hlive2 hi2 hx2 r2
   obtain ⟨w3, g3, _⟩ := WF.removeMembers c (Rm q).id (Rm q).members w2
   have fr := removeMembers_frame c (Rm q).id (Rm q).members s2
   generalize hs3 : removeMembers c (Rm q).id s2 (Rm q).members = s3 at *
@@ -147,7 +148,7 @@ theorem linv_handleComplete {Rm : Nat → Rel} {n : Nat} {base : Base} (cx : Ctx
   have hdb4 : ∀ k, (handleComplete c s q).getDb k = s3.getDb k := by
     intro k; rw [heq, heq4]; cases k <;> rfl
   have hst4 : (handleComplete c s q).stash = stashRemove s3.stash (q + 1) := by rw [heq, heq4]
-  refine ⟨i2, hsk, ?_, ?_, ?_⟩
+  refine ⟨i2, hsk, ?_, ?_, ?_, ?_⟩
   · -- handles
     refine ⟨?_, ?_, ?_⟩
     · intro k e he hpos o ho hk hoi
@@ -160,6 +161,15 @@ theorem linv_handleComplete {Rm : Nat → Rel} {n : Nat} {base : Base} (cx : Ctx
       · intro hh; rw [hh, hget3] at h2; simp at h2
     · intro k e he; rw [hdb4] at he; exact hi3.fresh k e he
     · intro hf k e he; rw [hdb4] at he ⊢; exact hi3.gone hf k e he
+  · -- uniform handles, nothing leaks
+    refine ⟨?_, ?_⟩
+    · intro k e he e' he'; rw [hdb4] at he he'; exact hx3.uniform k e he e' he'
+    · intro h' o hg
+      rw [hst4, stashGet_stashRemove] at hg
+      split at hg
+      · cases hg
+      · obtain ⟨k, e, he, h2⟩ := hx3.noleak h' o hg
+        exact ⟨k, e, by rw [hdb4]; exact he, h2⟩
   · -- removed flags
     intro k e he
     rw [hdb4] at he
@@ -217,9 +227,10 @@ theorem linv_completeStep {Rm : Nat → Rel} {n : Nat} {base : Base} (cx : Ctx R
   have hlive := live_of_missing i.inv2 q m hq hm
   have hsz : q < s.rdb.size := by rw [i.inv2.wf.rsize]; exact hq
   have i1 : LInv Rm n base c.fixed SO ({ s with rdb := s.rdb.setIfInBounds q ⟨q + 1, m⟩ } : State) := by
-    refine ⟨inv2_setMissing i.inv2 q (m + 1) m hq hlive, ?_, ?_, ?_, i.looks⟩
+    refine ⟨inv2_setMissing i.inv2 q (m + 1) m hq hlive, ?_, ?_, ?_, ?_, i.looks⟩
     · intro k; rw [← i.skelEq k]; cases k <;> rfl
     · exact hinv_congr i.hinv rfl (fun k => by cases k <;> rfl)
+    · exact xinv_congr i.xinv rfl (fun k => by cases k <;> rfl)
     · apply numInv_congr' i.num
       · intro p
         simp only [deadB, Array.getElem?_setIfInBounds]
